@@ -6,6 +6,23 @@ import json
 from e2e import LOOP
 
 
+ACCESS_LOG_PATH = "/verif/.cache/e2e/c18-access.log"
+
+
+def access_log_docs():
+    """documents whose access-log path cannot be opened for appending"""
+    out = []
+    for what, path in (("missing directory", "/verif/.cache/e2e/no-such-dir/x/access.log"), ("empty path", ""), ("a directory", "/verif/.cache"),
+                       ("under a file", "/etc/hostname/access.log"), ("script format with a type error", None)):
+        d = {"apiVersion": "v1alpha", "kind": "ProxyDefinition", "listeners": [], "connectors": [{"name": "direct"}], "rules": [{"target": "direct"}]}
+        if path is None:
+            d["accessLog"] = {"path": ACCESS_LOG_PATH, "format": {"script": "1 + 1"}}
+        else:
+            d["accessLog"] = {"path": path, "format": "json"}
+        out.append(("accessLog: " + what, d))
+    return out
+
+
 def bases(crt, key):
     tls_s = {"cert": crt, "key": key}
     b1 = {
@@ -42,6 +59,7 @@ def bases(crt, key):
             {"target": "direct"},
         ],
         "metrics": {"bind": "127.0.0.1:18888", "historySize": 10},
+        "accessLog": {"path": ACCESS_LOG_PATH, "format": "json"},
     }
     b2 = {
         "apiVersion": "v1alpha", "kind": "ProxyDefinition",
